@@ -20,12 +20,14 @@ import (
 func main() {
 	mode := flag.String("mode", "kp", "kp | io | sec")
 	cases := flag.String("cases", "", "ndjson cases written by Plan_KeyParams.tla (mode kp)")
+	handles := flag.String("handles", "", "ndjson handles written by Plan_KeysetIO.tla (modes io, sec)")
 	out := flag.String("out", "", "trace file")
 	replay := flag.String("replay", "", "replay file: re-execute its case only")
 	flag.Parse()
 	if *out == "" {
 		vt.Fatal("-out required")
 	}
+	handlesPath = *handles
 	w := vt.NewWriter(*out)
 	defer w.Close()
 	switch *mode {
